@@ -105,7 +105,9 @@ Fixpoint mpc_sv8_loop (fuel : nat) (sh rg : bool) (st : mpc_info) (ft : list Z) 
            else if list_eqb ft mpc_RG then
              (if negb rg then praise EMutagen
               else st' <~ mpc_parse_rg st data_size ;; pret (sh, false, st'))
-           else p_seek data_size 1 ;;~ pret (sh, rg, st)) ;;
+           else
+             (* try: fileobj.seek(data_size, 1)  except OverflowError: raise error *)
+             pcatch (p_seek data_size 1) (fun e => exc_eqb e EOverflow) (fun _ => praise EMutagen) ;;~ pret (sh, rg, st)) ;;
         ft' <~ mpc_read_key ;;
         mpc_sv8_loop fuel' sh' rg' st' ft'
   end.
